@@ -20,6 +20,9 @@ func init() {
 func genC01(t *core.Tape, tier string) *Scenario {
 	sc := &Scenario{Prop: "C01", Notes: map[string]int{}}
 	sc.PoolFIFO = t.Bool(1, 4, "poolfifo")
+	if t.Bool(1, 6, "pooldrop") {
+		sc.PoolDrop = uint32(1 + t.Choose(1<<20, "pooldrop.seed"))
+	}
 	h := genHandlerCfg(t)
 	c := genClientCfg(t)
 	fixCompat(&c, &h)
